@@ -110,14 +110,29 @@ def _alpha(cls, tier):
 _ARR = {}
 
 
-def _array_getters(cls, base):
+def _canonical_base(cls):
+    """A fixed base shape per class (the cache below must not depend on which run a
+    worker process happened to see first)."""
+    cube = (np.array(gen.cube(), float) * [1.0, 1.5, 2.0] + [3.0, 2.0, 1.0]).tolist()
+    square = [[3.0, 1.0, 0.0], [1.0, 1.0, 0.0], [1.0, -1.0, 0.0], [3.0, -1.0, 0.0]]
+    if cls in ("ConvexPolyhedron", "ConvexSpheropolyhedron"):
+        return {"cls": cls, "vertices": cube, "radius": 0.5}
+    if cls == "Polyhedron":
+        return {"cls": cls, "vertices": cube, "faces": gen.hull_faces(cube),
+                "faces_are_convex": True}
+    if cls in gen.VERTEX2D:
+        return {"cls": cls, "vertices": square, "normal": None, "radius": 0.5}
+    return {"cls": cls, "radius": 1.0, "a": 1.0, "b": 2.0, "c": 3.0, "center": [1.0, 2.0, 0.0]}
+
+
+def _array_getters(cls, base=None):
     """Properties of the class whose value contains an ndarray (found by reading
-    them once on a built base shape)."""
+    them once on a fixed canonical shape of the class)."""
     if cls in _ARR:
         return _ARR[cls]
     out = []
     try:
-        obj = gen.build(base)
+        obj = gen.build(_canonical_base(cls))
         props, _, _ = observe.members(type(obj))
         for p in props:
             if p in observe.DEPRECATED:
